@@ -364,7 +364,15 @@ class PVLParser(object):
                         except LexerError:
                             raise
                         except Exception:
-                            raise ve
+                            # Tokens of this block have been consumed, so
+                            # this can't be a plain ValueError that would
+                            # let a caller try another production.
+                            try:
+                                tokens.throw(ValueError, str(ve))
+                            except LexerError:
+                                raise
+                            except ValueError:  # tokens already exhausted
+                                raise ParseError(str(ve))
 
         return block_name, agg
 
@@ -563,7 +571,17 @@ class PVLParser(object):
                 "an Assignment-Statement."
             )
 
-        self.parse_around_equals(tokens)
+        try:
+            self.parse_around_equals(tokens)
+        except LexerError:
+            raise
+        except ValueError:
+            # The Parameter Name has been consumed, so this can't be a
+            # plain ValueError that lets a caller try another production.
+            tokens.throw(
+                ValueError,
+                f'Expecting "=" after the Parameter Name "{parameter_name}"',
+            )
 
         try:
             # print(f'parameter name: {parameter_name}')
